@@ -41,6 +41,7 @@ fn main() {
     let f: fn(&str) -> String = match sub {
         "sparseset" => sparseset::run_case,
         "prop" => plevel::run_prop,
+        "deps" => plevel::run_deps,
         "prune1" => plevel_global::run_prune1,
         "solve" => plevel::run_solve,
         "ctx" => plevel::run_ctx,
